@@ -152,9 +152,12 @@ def upd (u : Upd) (p : Point) : Except Err Point := do
   let fl ← (match u.fields with | none => pure p.fields | some f => do pure (dictUpdate p.fields (← f p.fields)))
   pure { time := t, meas := me, tags := eraseKeys tg u.unsetTags, fields := eraseKeys fl u.unsetFields }
 
-/-- an error anywhere ⇒ the database is unchanged (C11) -/
+/-- the selected points are replaced by their updated versions (a point the update leaves equal
+    stays as it is); the count is the number of points whose content changed; an error anywhere ⇒
+    the database is unchanged (C11) -/
 def update (db : DB) (u : Upd) (q : Query) (m : Option String) : Except Err (DB × Nat) := do
-  let db' ← db.mapM (fun p => if selected q m p then upd u p else pure p)
+  let db' ← db.mapM (fun p =>
+    if selected q m p then do let p' ← upd u p; pure (if p'.eqv p then p else p') else pure p)
   pure (db', (List.zip db db').countP (fun pp => !(pp.1.eqv pp.2)))
 
 def insert (db : DB) (pts : List Point) : DB := db ++ pts
